@@ -450,7 +450,8 @@ def _expr_run(res: CheckResult, layouts: bool) -> None:
              10 if res.tier == "quick" else 24),
             ("calls returning classes; comparison chains over calls", E.fam_typeof(rng), 0),
             ("a variable named like a builtin and bound to None, behind guards", E.fam_builtin_named(), 0),
-            ("formatted string literals over values that format unlike str()", E.fam_fstr(), 0)]
+            ("formatted string literals over values that format unlike str()", E.fam_fstr(), 0),
+            ("a quantifier with nested loop targets: the example names every loop variable", E.fam_all_nest(), 0)]
     for name, exprs, per in fams:
         cases = E.make_cases(exprs, rng, envs_per_expr=per)
         r, viol, py = E.model_check_expr(cases)
@@ -458,6 +459,23 @@ def _expr_run(res: CheckResult, layouts: bool) -> None:
             raise MachineryError("ICExpr: the switch-off specification fails {}: {}".format(r.violated, (r.error or "")[:800]))
         res.states += r.distinct
         res.transitions += r.states
+        if any(nd["k"] == "fstr" for e in exprs for nd in e):
+            # known finding F34: the implementation must conform to the model with SwFStringOpaque on (any OTHER
+            # deviation is still reported); the obligations were just checked with the switch off; with it on TLC
+            # returns the counterexample that the KNOWN-FINDING line reports
+            from icv.result import load_known
+            kf = [k for k in load_known() if k.get("status") == "known" and k.get("eswitch") == "SwFStringOpaque"]
+            if kf:
+                r_on, viol, py = E.model_check_expr(cases, sw_fstr=True, invariants=[i for i in E.EXPR_INVARIANTS if i != "ShownComplete"])
+                if not r_on.ok:
+                    raise MachineryError("ICExpr with SwFStringOpaque: {}".format(r_on.violated or r_on.error))
+                r_cx, _, _ = E.model_check_expr(cases, sw_fstr=True, invariants=["ShownComplete"], emit=False)
+                if r_cx.ok or r_cx.violated != "ShownComplete":
+                    raise MachineryError("SwFStringOpaque does not reproduce the known finding: {}".format(r_cx.violated or r_cx.error))
+                for k in kf:
+                    if res.prop in [k["property"]] + k.get("also", []):
+                        res.known(k["signature"], "{} [model-level counterexample: obligation ShownComplete fails with "
+                                                  "SwFStringOpaque=TRUE]".format(k["what"]))
         st = E.check_cases(res, EXPR_CLAUSES, cases, viol, py, ic)
         if st["violated"] < 100 and not res.violations:
             raise MachineryError("ICExpr family {} is vacuous".format(name))
